@@ -893,7 +893,7 @@ def render(case):
     return case if len(text) <= 1500 else {'kind': case['kind'], 'abridged': text[:1500]}
 
 
-def case_fn(case, stats):
+def case_fn(case, stats, sample_label=None):
     findings, info = evaluate(case)
     stats.evaluated()
     label = case['kind'] if case['kind'] != 'extension' else 'extension:' + case['side']
@@ -914,7 +914,7 @@ def case_fn(case, stats):
     if is_nontrivial(case):
         stats.nontriv(info['wire'])
         if len(info['wire']) <= 400:
-            stats.sample(label, render(case))
+            stats.sample(sample_label or label, render(case))
     return findings
 
 
@@ -1539,11 +1539,11 @@ def boundary_cases(thorough):  # pylint: disable=too-many-statements
 # drivers
 # ---------------------------------------------------------------------------------------------------------
 
-def _run_listed(pairs):
+def _run_listed(pairs, sample_label):
     stats = Stats()
     tables = {}
     for label, case in pairs:
-        for finding in case_fn(case, stats):
+        for finding in case_fn(case, stats, sample_label):
             stats.finding(finding, case)
         tables[label] = tables.get(label, 0) + 1
     stats.extra['deterministic_cases_per_table'] = tables
@@ -1559,12 +1559,12 @@ def _shard(arg):
         return stats
     if name == 'enumeration':
         _, index, step = arg
-        stats = _run_listed(enumeration_cases()[index::step])
+        stats = _run_listed(enumeration_cases()[index::step], 'enumeration')
         stats.label('enumeration', stats.evaluations)
         return stats
     if name == 'boundary':
         _, index, step, thorough = arg
-        stats = _run_listed(boundary_cases(thorough)[index::step])
+        stats = _run_listed(boundary_cases(thorough)[index::step], 'boundary')
         stats.label('boundary', stats.evaluations)
         return stats
     raise HarnessError('unknown shard %r' % (arg,))
